@@ -320,6 +320,21 @@ def make_cache(spec):
         def set(self, key, value, ttl=None):
             self.d[key] = copy.deepcopy(value)
 
+    class FrozenAtSetCache(DictCache):
+        """set() stores a FROZEN deep copy (read-only view of a private copy, taken when the entry is written, i.e. before
+        the engine goes on with the obligation step); get() returns that frozen entry, the same object to every reader"""
+
+        def set(self, key, value, ttl=None):
+            self.d[key] = types.MappingProxyType(copy.deepcopy(value))
+
+    class CopyThenViewCache(DeepCopyCache):
+        """deep copy at set(); get() returns a read-only view of the stored copy"""
+
+        def get(self, key):
+            v = self.d.get(key)
+            self.gets.append(v is not None)
+            return None if v is None else types.MappingProxyType(v)
+
     # ---- cache OBJECTS that are falsy as Python objects: a cache is a cache whatever bool() says about it
     class FalsyDictCache(dict):
         """a dict subclass implementing the cache interface: bool() is False while it is empty (at construction)"""
@@ -365,6 +380,10 @@ def make_cache(spec):
         return FrozenSnapshotCache()
     if spec[0] == "deepcopy":
         return DeepCopyCache()
+    if spec[0] == "frozen-set":
+        return FrozenAtSetCache()
+    if spec[0] == "copy-roview":
+        return CopyThenViewCache()
     if spec[0] == "falsy-dict":
         return FalsyDictCache()
     if spec[0] == "falsy-len":
@@ -381,10 +400,13 @@ def model_cache(spec):
     k = spec[0]
     if k in ("lru", "roview-lru", "falsy-bool-lru"):
         return ["lru", spec[1]], False
-    return ["dict"], k in ("pickle", "deepcopy")
+    # an entry copied at set() never sees what the storing evaluation does afterwards: the model's copying cache,
+    # whether the reader then gets a private copy, a read-only view of the stored copy or the frozen copy itself
+    return ["dict"], k in ("pickle", "deepcopy", "frozen-set", "copy-roview")
 
 
-NEW_CACHE_KINDS = [["roview"], ["roview-lru", 2], ["frozen-get"], ["deepcopy"], ["falsy-dict"], ["falsy-len"], ["falsy-bool-lru", 2]]
+NEW_CACHE_KINDS = [["roview"], ["roview-lru", 2], ["frozen-get"], ["deepcopy"], ["frozen-set"], ["copy-roview"],
+                   ["falsy-dict"], ["falsy-len"], ["falsy-bool-lru", 2]]
 
 
 def consume_decision(d, n):
@@ -1678,7 +1700,8 @@ def run(chk):
                 "read-only view or a snapshot taken at get() is a reference-storing cache to a reader that cannot write, a falsy "
                 "cache object is the cache it implements): get() returning types.MappingProxyType views of the stored mapping (dict- "
                 "and DefaultInMemoryCache-backed), get() returning an immutable snapshot (read-only view of a private deep copy), "
-                "deep copies at set() and get(); a dict SUBCLASS implementing get/set/delete/clear (empty = falsy at construction), "
+                "deep copies at set() and get(), a FROZEN deep copy stored at set() and handed to every reader, deep copy at set() "
+                "with a read-only view at get(); a dict SUBCLASS implementing get/set/delete/clear (empty = falsy at construction), "
                 "a cache with __len__ = number of entries, a DefaultInMemoryCache with __bool__ False: per kind ALL histories of "
                 "length <= 2 (thorough <= 3) over the one-guard alphabet for the quadruples whose permits carry obligations the "
                 "context meets / does not meet (ctx, ctxw; thorough also num, ids, and a strict engine) and over the two-guard "
@@ -1713,9 +1736,9 @@ def run(chk):
         "both guards use the built-in obligation checker (a second guard with ANOTHER checker sharing a reference-storing cache "
         "is outside the statement's quantifier; the model exhibits the leak of raw['reason'] there: c08_other_checker_leaks)",
         "custom caches keep the contract `get returns what set stored`: the read-only kinds hand out VIEWS / snapshots taken "
-        "at get() of the stored mapping (so the engine's own in-place `raw['reason']` write of the storing evaluation is seen). "
-        "A cache that freezes a COPY at set() is not generated: on the unchanged tree its hits report reason='matched' instead of "
-        "'obligation_failed' for a refused permit (allowed/effect are right; the write raises and is swallowed) - reported, not listed",
+        "at get() of the stored mapping, or freeze a deep COPY at set() (fixed finding F27: the engine used to write the "
+        "reason 'obligation_failed' into the entry; on a frozen copy the write raised, was swallowed, and a refused permit served "
+        "from the cache was reported with reason 'matched'; witness corpus/C08/F27_frozen_entry_reason.json)",
         "the relationship checker is a fixed set of facts (no state)",
         "role resolver: read as part of 'the same engine configuration' — the uncached engine the statement compares with holds "
         "the same current policy AND the same collaborator objects at the same point of the history, so a resolver whose answers "
